@@ -7,7 +7,7 @@
 // case line:  <id> <token> <token> ...       (tokens contain no blanks)
 //   H:f=<int>                 handler flags (Handler::HandleFlags bit set), one handler
 //   G:<name>:f=<int>          start of a group member handler (evaluation through Groups)
-//   arg:<keyspec>:<slot>:<opt>/<opt>/...
+//   arg:<keyspec>:<slot>:<opt>/<opt>/...      (options: see applyOption; fmtpos=<idx>~<upper|lower> = addFormatPos)
 //   con:<all_of|any_of|one_of|differ|disjoint>:<spec>
 //   prog:<hex>                argv[0]
 //   file:<hex>                content of $HOME/.progargs/<prog>.pa
@@ -259,6 +259,12 @@ void applyOption(TypedArgBase* a, const std::string& slot, const std::string& op
       else throw std::invalid_argument("check " + p.at(0));
    }
    else if (name == "fmt") { if (val == "upper") a->addFormat(pa::uppercase()); else a->addFormat(pa::lowercase()); }
+   else if (name == "fmtpos")
+   {
+      // fmtpos=<idx>~<upper|lower> : formatter for the value at position idx (addFormatPos)
+      const int idx = std::stoi(p.at(0));
+      if (p.at(1) == "upper") a->addFormatPos(idx, pa::uppercase()); else a->addFormatPos(idx, pa::lowercase());
+   }
    else if (name == "excl") a->addConstraint(pa::excludes(val));
    else if (name == "req") a->addConstraint(pa::requiresArg(val));
    else if (name == "init" || name == "desc") { /* handled elsewhere */ }
